@@ -220,7 +220,7 @@ func (g *G) otherType(ty string) string {
 	return "null"
 }
 
-var strPool = []string{"", "a", "b", "ab", "hello", "Hello World", " pad ", "x,y,z", "42", "-7", "3.5", "true", "é€", "tab\there", "q\"uote", "back\\slash", "# not a comment", "// neither", "$ > ? @", "line\nbreak"}
+var strPool = []string{"", "a", "b", "ab", "hello", "Hello World", " pad ", "x,y,z", "42", "-7", "3.5", "true", "é€", "tab\there", "q\"uote", "back\\slash", "# not a comment", "// neither", "$ > ? @", "line\nbreak", "bell\x07", "nul\x00byte", "esc\x1b[0m", "cr\rlf"}
 
 func (g *G) lit(ty string) *Node {
 	switch ty {
